@@ -242,7 +242,9 @@ fn rule_zero_to_const(
         match val {
             AvailableValue::OriginalRegisterWithScalar(r, i)
             | AvailableValue::RegisterWithScalar(r, i) => {
-                if r.is_const_zero() {
+                // Only rewrite a value that survived this node: if the node
+                // overwrote or killed the register, the old value is gone.
+                if r.is_const_zero() && available_out.get(reg) == Some(val) {
                     available_out.insert(*reg, AvailableValue::Constant(*i));
                 }
             }
@@ -253,7 +255,8 @@ fn rule_zero_to_const(
         match val {
             AvailableValue::OriginalRegisterWithScalar(r, i)
             | AvailableValue::RegisterWithScalar(r, i) => {
-                if r.is_const_zero() {
+                // Same for a location this node has just stored to.
+                if r.is_const_zero() && memory_out.get(mem_loc) == Some(val) {
                     memory_out.insert(mem_loc.clone(), AvailableValue::Constant(*i));
                 }
             }
